@@ -133,6 +133,34 @@ def mutants(c, g):
     return out
 
 
+def loose_cases(seed, n):
+    """Literal unions whose members are loosely equal across JS types (1 / "1" / true, 0 / "0" / "" / false, null / "null");
+    the mutants drop one member each and the values are the members themselves."""
+    g = gen.Gen(seed)
+    r = g.r
+    pool = [I(0), I(1), I(2), "0", "1", "2", "", True, False, None, "true", "false", "null", "a"]
+    groups = [[I(1), "1", True], [I(0), "0", "", False], [None, "null"], [I(2), "2"], [True, "true"], [False, "false"]]
+    out = []
+    for i in range(n):
+        grp = r.choice(groups)
+        cs = r.sample(grp, 2)
+        for _ in range(r.randrange(0, 3)):
+            c = r.choice(pool)
+            if not any(type(c) == type(d) and c == d for d in cs): cs.append(c)
+        r.shuffle(cs)
+        wrap = r.choice(["none", "none", "prop", "array", "tuple"])
+        def w(x, wrap=wrap):
+            return x if wrap == "none" else (("Object", [("k", x)], []) if wrap == "prop" else (("Array", x) if wrap == "array" else ("Tuple", [x], None)))
+        def wv(v, wrap=wrap):
+            return v if wrap == "none" else (OBJ([("k", v)]) if wrap == "prop" else ARR([v]))
+        rt = w(("AnyOfConsts", cs))
+        extra = []
+        for j in range(len(cs)):
+            extra.append(("literal dropped from union", w(("AnyOfConsts", cs[:j] + cs[j + 1:]))))
+        out.append({"env": [], "rt": rt, "vals": [wv(cst_val(c)) for c in cs], "source": "loose-literals", "mutants_extra": extra})
+    return out
+
+
 def retarget_cases(seed, n):
     """Mutually recursive named object types; the mutant re-targets one back-reference (nested cycle ids matter)."""
     g = gen.Gen(seed)
@@ -186,10 +214,12 @@ def check(run):
     cases += rstage.gen_cases(run.seed + 1301, 160 if quick else 2500, 5, depth=3)
     cases += rstage.gen_forced(run.seed + 1302, 64 if quick else 1200, 5)
     cases += retarget_cases(run.seed + 1304, 60 if quick else 800)
+    cases += loose_cases(run.seed + 1305, 40 if quick else 600)
     g = gen.Gen(run.seed + 1303)
     jobs, exprs, meta = [], [], []
     for ci, c in enumerate(cases):
         items = [("original", c["env"], c["rt"], True)] + variants(c, rnd) + [("mutant:" + n, c["env"], m, False) for n, m in mutants(c, g)]
+        items += [("mutant:" + n, c["env"], m, False) for n, m in c.get("mutants_extra", [])]
         if "env2" in c:
             items.append(("mutant:back-reference re-targeted", c["env2"], c["rt"], False))
         c["items"] = items
